@@ -153,14 +153,14 @@ func mtDenoms(c *world.Chain) map[string]bool {
 }
 
 // CheckC05: multi-token conservation.
-func CheckC05(tier string) int {
+func modelsC05(tier string) ([]*PktModel, []int) {
 	props := map[string]bool{"C05": true}
 	max := ^uint64(0)
 	models := []*PktModel{
-		mt3("mt2-small", props, MtScenario{MaxUserTx: 4, Supply: 3, Amounts: []uint64{1, 2, 3, 4}, Receivers: []int{1}, BadReceiver: true}, []string{A, B}),
+		mt3("mt2-small", props, MtScenario{MaxUserTx: 3, Supply: 3, Amounts: []uint64{1, 2, 3, 4}, Receivers: []int{1}, BadReceiver: true}, []string{A, B}),
 		mt3("mt3-max-supply", props, MtScenario{MaxUserTx: 3, Supply: max, Amounts: []uint64{1, 1 << 63, max - 1, max}, Receivers: []int{1}}, []string{A, B, C}),
 	}
-	depth := []int{9, 8}
+	depth := []int{8, 7}
 	if tier == "thorough" {
 		models = []*PktModel{
 			mt3("mt3-small", props, MtScenario{MaxUserTx: 5, Supply: 3, Amounts: []uint64{1, 2, 3, 4}, Receivers: []int{1, 2}, BadReceiver: true, Relays: true}, []string{A, B, C}),
@@ -168,9 +168,19 @@ func CheckC05(tier string) int {
 		}
 		depth = []int{12, 11}
 	}
+	return models, depth
+}
+
+func CheckC05(tier string) int {
+	models, depth := modelsC05(tier)
+
 	return RunPkt("C05", tier, models, depth, tierBudget(tier, 100*time.Second, 15*time.Minute), append([]string{
 		"all sums in math/big; class identities and parent links are learnt from history (which escrow a delivery drew on), not from class paths",
 		"invariants in every state: user-held units of an identity over all chains + units in flight = minted natively; module (escrow) balance of a class on a chain = everything that exists of its voucher classes one hop further + units in flight on those edges; every stored MT supply figure = sum of its balances",
 		"the MT module generates denom and MT ids itself (sha256 hex of a counter), so path-shaped native class names are not expressible through its messages and are not in the alphabet",
 	}, commonAssumptions...))
+}
+
+func init() {
+	PktRegistry["C05"] = func(tier string) []*PktModel { m, _ := modelsC05(tier); return m }
 }
